@@ -246,3 +246,17 @@ Lemma rename_refuted_before_fix :
   exists fb fa, get fs (s "b") = Some fb /\ get fs (s "a") = Some fa
                 /\ snd (shown fb) = Some (s "a") /\ fst (shown fa) = None.
 Proof. vm_compute. eexists. eexists. repeat split; reflexivity. Qed.
+
+(* ---------------------------------------------------------------- virtual methods *)
+Lemma vfunc_own_block blocks st v inv b :
+  blocks_lookup blocks (block_key EVFunc st v) None = Some b -> vfunc_meta blocks st v inv = meta_of SFunction (Some b).
+Proof. unfold vfunc_meta. intros H. rewrite H. reflexivity. Qed.
+
+Lemma vfunc_inherits blocks st v sym :
+  blocks_lookup blocks (block_key EVFunc st v) None = None ->
+  vfunc_meta blocks st v (Some sym) = element_meta blocks EFunction SFunction [] sym.
+Proof. unfold vfunc_meta, element_meta. intros H. rewrite H. reflexivity. Qed.
+
+Lemma vfunc_bare blocks st v :
+  blocks_lookup blocks (block_key EVFunc st v) None = None -> vfunc_meta blocks st v None = no_meta.
+Proof. unfold vfunc_meta. intros H. rewrite H. reflexivity. Qed.
